@@ -226,3 +226,112 @@ def deadlock_free_programs(draw, max_actors=3, max_blocks=3):
         if use_bar:
             ops[a].append(["barrier", 0])
     return _scenario(objects, ops)
+
+
+@st.composite
+def condvar_programs(draw):
+    """Several condition variables on few mutexes (the not_full / not_empty pattern: two condvars protected by ONE mutex), waiters
+    on different condvars (plain and timed waits: a timed CONDVAR_WAIT is enabled without any notification), notifiers (signal /
+    broadcast, with or without the mutex), and actors that only lock / try_lock the shared mutex.  The dependency rules between
+    condvar and mutex transitions key on exactly one of the two ids: this family reaches same-mutex/different-condvar,
+    same-condvar, different-mutex/different-condvar pairs often.  Programs may deadlock: C39 only looks at reached states."""
+    nmut = draw(st.sampled_from([1, 1, 1, 2]))
+    ncv = draw(st.sampled_from([2, 2, 3]))
+    cond = [0 if nmut == 1 else draw(st.sampled_from([0, 0, 1])) for _ in range(ncv)]
+    nact = draw(st.integers(2, 4))
+    ops = []
+    roles = draw(st.lists(st.sampled_from(["waiter", "waiter", "waiter", "notifier", "locker"]), min_size=nact, max_size=nact))
+    if roles.count("waiter") < 2:
+        roles[0] = roles[1] = "waiter"
+    nwait = 0
+    for a, role in enumerate(roles):
+        l = []
+        ntry = 0
+        for _ in range(draw(st.integers(1, 2))):
+            if role == "waiter":
+                c = nwait % ncv if draw(st.integers(0, 3)) else draw(st.integers(0, ncv - 1))     # mostly different condvars
+                nwait += 1
+                m = cond[c]
+                w = ["cv_wait_for", c, draw(st.sampled_from([0.25, 1.0, 2.0]))] if draw(st.integers(0, 2)) else ["cv_wait", c]
+                l += [["lock", m], w, ["unlock", m]]
+            elif role == "notifier":
+                c = draw(st.integers(0, ncv - 1))
+                n = [draw(st.sampled_from(["notify_one", "notify_all"])), c]
+                if draw(st.booleans()):
+                    l += [["lock", cond[c]], n] + ([[draw(st.sampled_from(["notify_one", "notify_all"])), draw(st.integers(0, ncv - 1))]]
+                                                   if draw(st.booleans()) else []) + [["unlock", cond[c]]]
+                else:
+                    l.append(n)
+            else:
+                m = draw(st.integers(0, nmut - 1))
+                if draw(st.booleans()):
+                    l += [["lock", m], ["unlock", m]]
+                else:
+                    l += [["try_lock", m], ["unlock_if", m, ntry]]
+                    ntry += 1
+        ops.append(l)
+    return _scenario({"mutex": [{"recursive": False} for _ in range(nmut)], "cond": cond}, ops)
+
+
+@st.composite
+def shared_object_programs(draw):
+    """Every actor works on the SAME few objects (one mutex, one semaphore, one barrier, one mailbox), with all the operation kinds
+    of each: pairs of co-enabled transitions nearly always share an object."""
+    nact = draw(st.integers(2, 4))
+    fam = draw(st.sampled_from(["mutex", "sem", "barrier", "mailbox", "mutex+sem", "mailbox+mutex"]))
+    objects = {}
+    if "mutex" in fam:
+        objects["mutex"] = [{"recursive": draw(st.integers(0, 3)) == 0}]
+    if "sem" in fam:
+        objects["sem"] = [draw(st.integers(0, 2))]
+    if "barrier" in fam:
+        objects["barrier"] = [draw(st.integers(2, nact)), draw(st.integers(1, 2))]
+    if "mailbox" in fam:
+        objects["mailbox"] = 1
+    ops = []
+    for a in range(nact):
+        l = []
+        ntry = 0
+        nh = 0
+        for _ in range(draw(st.integers(1, 3))):
+            choices = []
+            if "mutex" in fam:
+                choices += ["cs", "try"]
+            if "sem" in fam:
+                choices += ["acq", "rel", "acqrel"]
+            if "barrier" in fam:
+                choices += ["bar", "bar1"]
+            if "mailbox" in fam:
+                choices += ["put", "get", "aput", "aget"]
+            k = draw(st.sampled_from(choices))
+            if k == "cs":
+                l += [["lock", 0], ["unlock", 0]]
+            elif k == "try":
+                l += [["try_lock", 0], ["unlock_if", 0, ntry]]
+                ntry += 1
+            elif k == "acq":
+                l.append(["acquire", 0])
+            elif k == "rel":
+                l.append(["release", 0])
+            elif k == "acqrel":
+                l += [["acquire", 0], ["release", 0]]
+            elif k == "bar":
+                l.append(["barrier", 0])
+            elif k == "bar1":
+                l.append(["barrier", 1])
+            elif k == "put":
+                l.append(["put", 0, 0, {}])
+            elif k == "get":
+                l.append(["get", 0, {}])
+            elif k == "aput":
+                h = 100 * a + nh
+                nh += 1
+                l += [["put_async", 0, 1, {}, h], [draw(st.sampled_from(["wait", "test"])), h] + ([{}] if False else [])]
+            else:
+                h = 100 * a + nh
+                nh += 1
+                l += [["get_async", 0, h, {}], ["test", h]]
+        # fix the shape of wait ops (["wait", h, {}]) produced above
+        l = [o + [{}] if o[0] == "wait" and len(o) == 2 else o for o in l]
+        ops.append(l)
+    return _scenario(objects, ops)
